@@ -10,6 +10,7 @@ import json
 import os
 import re
 import shutil
+import tempfile
 import subprocess
 import sys
 import time
@@ -81,7 +82,13 @@ class Ctx:
         self.seed = seed
         self.replay = replay
         self.t0 = time.time()
-        self.work = os.path.join(ROOT, "work", "%s_%s_%d" % (pid, tier, os.getpid()))
+        wbase = os.path.join(ROOT, "work")
+        if any(c in wbase for c in ".:"):
+            # the core's repository manager takes a path with '.' or ':' for a URL: when this tree is checked out
+            # under such a path (e.g. ~/.vp/runs/N/verif) the per-run scratch directory goes to the temp dir instead
+            # (created and removed by the run itself)
+            wbase = os.path.join("/tmp" if any(c in tempfile.gettempdir() for c in ".:") else tempfile.gettempdir(), "verif-work")
+        self.work = os.path.join(wbase, "%s_%s_%d" % (pid, tier, os.getpid()))
         shutil.rmtree(self.work, ignore_errors=True)
         os.makedirs(self.work)
         self.ntlc = 0
